@@ -6,7 +6,7 @@ BUDGET = {
     "quick": dict(shards=16, cases=1920, deadline=70),
     "thorough": dict(shards=16, cases=40000, deadline=1200),
 }
-DECIDING = ["convert"]
+DECIDING = ["convert", "c08.stability"]
 RULE = ("All 16 converters and O2JToSM.convert_merge over source charts of the five games from rv/gen/charts.py (built from items / "
         "from_dict / frames; empty hold and SV lists; 1..3 charts per mapset) in every history class of the quantifier: freshly built, "
         "read back from a written file, filtered (label gaps), sorted / reversed / shuffled, appended to, modified through stacking (stack "
@@ -93,7 +93,27 @@ def run(ctx, case):
         kw["move_right_by"] = case["shift"]
     if "raise_bad_mode" in params and case["lenient"]:
         kw["raise_bad_mode"] = False
+    from rv.monitors.convert import charts_of, content
     try:
-        fn(obj, **kw)
+        res1 = fn(obj, **kw)
     except Exception:
-        pass
+        return
+    # a second source of the same shape (same row counts), converted afterwards: the first result must not move
+    with ctx.quiet():
+        try:
+            before = [content(m) for _, m in charts_of(res1)]
+            obj2 = charts.apply_history(charts.build(case["spec"]), case["history"] + [["stack_shift", 777.0]])
+        except Exception:
+            return
+    try:
+        fn(obj2, **kw)
+    except Exception:
+        return
+    with ctx.quiet():
+        after = [content(m) for _, m in charts_of(res1)]
+    if before != after:
+        ctx.violate("C08", "c08.stability", "earlier_result_changed",
+                    f"{case['converter']}: the result of an earlier conversion changed when another chart of the same shape was converted afterwards",
+                    dict(before=str(before)[:600], after=str(after)[:600]), dict(converter_family=case["converter"].split("To")[1]))
+    else:
+        ctx.held("c08.stability", "earlier_result_unchanged")
